@@ -2,9 +2,9 @@
 import random, json, collections
 from common import *
 import pipe, gens
-from props import c03
+from props import c03, c13
 
-RULE = ("every recorded batch of the corpus run and of the generated run, plus multi-batch runs (random batch sizes) whose merged "
+RULE = ("every recorded batch of the corpus run and of the generated run, the MCS-stage reactions at thresholds {0, 0.5, 1, observed confidences and both float neighbours}, plus multi-batch runs (random batch sizes) whose merged "
         "statistics are compared with the rows; each batch is replayed through the model inside Coq (rows + all seven counters); "
         "independent oracle recomputes every relation of the property from the returned rows.  Non-trivial: a batch with at least "
         "two different outcomes among its rows; distinct = distinct batch content.")
@@ -39,6 +39,17 @@ def run(ctx):
         if len({(r["solved"], r["solved_by"]) for r in b["rows"]}) >= 2:
             ctx.nontrivial.add(json.dumps(b["inputs"]))
         relations(ctx, b["inputs"], b["rows"], b["stats"], {"inputs": b["inputs"]})
+    # thresholds: the same relations must hold at every threshold, in particular at observed confidences and their float neighbours
+    truns, ths, _ = c13.threshold_runs(ctx)
+    tb = []
+    for x in truns:
+        b = x["batch"]
+        ctx.evaluations += 1
+        ctx.count("thresholds", "batches")
+        if any(r["solved_by"] == "mcs-based" for r in b["rows"]):
+            ctx.nontrivial.add(json.dumps([b["inputs"], x["t"]]))
+        relations(ctx, b["inputs"], b["rows"], b["stats"], {"inputs": b["inputs"], "threshold": x["t"]})
+        tb.append(b)
     # merged statistics of multi-batch runs through the public API
     from synrbl import Balancer
     rng = random.Random("c18|%s|%s" % (ctx.seed, ctx.tier))
@@ -58,7 +69,7 @@ def run(ctx):
         ctx.count("merged", "malformed_runs")
         relations(ctx, ins, b["rows"], b["stats"], {"inputs": ins, "batch_size": k})
     ctx.sample({"inputs": bs[0]["inputs"][:2], "stats": bs[0]["stats"]})
-    pipe.eval_pipeline_cases(ctx, bs + gs, "c18")
+    pipe.eval_pipeline_cases(ctx, bs + gs + tb, "c18")
 
 
 def replay(ctx, rep):
@@ -66,7 +77,7 @@ def replay(ctx, rep):
     if isinstance(case, dict) and "inputs" in case:
         from synrbl import Balancer
         st = {}
-        rows = Balancer(n_jobs=1, batch_size=case.get("batch_size")).rebalance(list(case["inputs"]), output_dict=True, stats=st)
+        rows = Balancer(n_jobs=1, batch_size=case.get("batch_size"), confidence_threshold=case.get("threshold", 0)).rebalance(list(case["inputs"]), output_dict=True, stats=st)
         n = len(ctx.failures); relations(ctx, case["inputs"], rows, st, case)
         print(st); return 1 if len(ctx.failures) > n else 0
     return 0
